@@ -37,7 +37,7 @@ def lit(rng, v=None, big=False):
     if r < 0.45: return str(v)
     if r < 0.75:
         h = "%x" % v
-        h = "0" * (rng.choice([0, 2, 4]) + len(h) % 2) + h
+        h = "0" * rng.choice([0, 0, 1, 2, 3, 4]) + h          # odd digit counts are legal (at least two digits)
         return "0x" + (h if len(h) >= 2 else "0" + h)
     if r < 0.88: return "0b" + "0" * rng.choice([0, 1, 3]) + bin(v)[2:]
     return "0o" + "0" * rng.choice([0, 2]) + oct(v)[2:]
@@ -77,7 +77,17 @@ def finish(prog, rng, tags, layout=True, extra=None):
     """render, compute the reference result, build the case"""
     setup()
     text = A.render(prog, rng if layout else None)
-    case = {"line": "asm " + C.txt(text), "tags": tags, "src": text if len(text) < 4000 else text[:4000] + "…"}
+    blobs = {}
+    for s_ in prog:
+        if s_[0] == "raw":
+            blobs[f"blob_{len(s_[1])}_{s_[1][:2].hex()}.hex"] = s_[1]
+    if blobs:
+        # large fillers are hex blobs next to the source: the case is a small file tree
+        ents = [f"f:{C.txt('main.etk')}:{C.hexs(text.encode())}"] + [f"f:{C.txt(n)}:{C.hexs(b.hex().encode())}" for n, b in blobs.items()]
+        line = f"asmfs {C.txt('main.etk')} {','.join(ents)}"
+    else:
+        line = "asm " + C.txt(text)
+    case = {"line": line, "tags": tags, "src": text if len(text) < 4000 else text[:4000] + "…"}
     try:
         b, info = A.assemble(prog)
         case["want_ok"] = C.hexs(b)
@@ -121,6 +131,10 @@ def oracle(case, reply):
 # ------------------------------------------------------------------ program families
 
 def filler(rng, n):
+    if n > 3000:
+        # one raw blob (%include_hex) instead of tens of thousands of one-byte instructions
+        first = rng.randrange(256)
+        return [("raw", bytes([first, n % 251]) + bytes((i * 7 + first) % 256 for i in range(n - 2)))]
     return [("op", rng.choice(["pc", "jumpdest", "gas"]))] * n
 
 
@@ -196,7 +210,8 @@ def gen_ops(rng):
             prog.append(("op", rng.choice(ms)))
         elif r < 0.85:
             n = rng.randrange(1, 33)
-            v = rng.choice([0, 1, 256 ** n - 1, 256 ** (n - 1), rng.getrandbits(8 * n), rng.getrandbits(8)])
+            v = rng.choice([0, 1, 256 ** n - 1, 256 ** (n - 1), rng.getrandbits(8 * n), rng.getrandbits(8),
+                            rng.getrandbits(8 * rng.randrange(1, n + 1)), rng.getrandbits(8 * rng.randrange(1, n + 1))])
             v %= 256 ** n
             prog.append(("push", n, X(rng, [lit(rng, v)])))
         elif r < 0.93:
@@ -248,8 +263,18 @@ def gen_range(rng):
     n = rng.choice([1, 1, 2, 2, 3])
     bound = 256 ** n
     off = rng.choice([-2, -1, 0, 1]) + bound
-    kind = rng.choice(["const", "back", "fwd", "marg", "neg"])
+    kind = rng.choice(["const", "back", "fwd", "marg", "neg", "wrap256", "wrap256"])
     prog = []
+    if kind == "wrap256":
+        # an operand >= 2^256 whose low bits alone would fit: reachable only through a label, a macro or a macro argument
+        z = (1 << 256) * rng.choice([1, 1, 2, 255]) + rng.choice([0, 0, 1, 5])
+        how = rng.choice(["fwd", "back", "emacro", "marg", "apush"])
+        if how == "fwd": prog += [("push", n, X(rng, ["e", "+", lit(rng, z)])), ("op", "jumpdest"), ("label", "e")]
+        elif how == "back": prog += [("op", "jumpdest"), ("label", "s"), ("push", n, X(rng, ["s", "+", lit(rng, z)]))]
+        elif how == "emacro": prog += [("edef", "big", [], X(rng, [lit(rng, z), "+", "5"])), ("push", n, X(rng, ["big", "(", ")"]))]
+        elif how == "marg": prog += [("mdef", "put", ["x"], [("push", n, X(rng, ["$x"]))]), ("minv", "put", [X(rng, [lit(rng, z), "+", "7"])])]
+        else: prog += [("apush", X(rng, ["e", "+", lit(rng, z)])), ("op", "jumpdest"), ("label", "e")]
+        return prog
     if kind == "const":
         prog.append(("push", n, X(rng, [lit(rng, off)])))
     elif kind == "neg":
